@@ -98,7 +98,7 @@ impl Prop for P {
         }
     }
     fn cases(tier: Tier) -> u64 {
-        tier.pick(80_000, 600_000)
+        tier.pick(400_000, 4_000_000)
     }
     fn strategy(_tier: Tier) -> BoxedStrategy<Case> {
         let comp = (config(), recipe(20_000, 3), schedule(6), 0u8..=6, proptest::bool::weighted(0.2), prop_oneof![3 => Just(None), 1 => (0u8..=10).prop_map(Some)], recipe(20_000, 3), schedule(4))
